@@ -1230,6 +1230,20 @@ pub fn file_line(r: &mut Rng, fi: usize) -> Line {
     Line { bytes: v, want, cmd: "file", arg: class }
 }
 
+/// A file line with exactly these bytes (after the same sanitising as
+/// `file_line`: no line feed, no blank or excluded first byte, no '@' first).
+pub fn file_line_from(mut v: Vec<u8>) -> Line {
+    sanitize(&mut v);
+    if v[0] == b'@' {
+        v[0] = b'a';
+    }
+    let want = match entry(Kind::File, Some(&v)) {
+        Some(e) => Want::Entry(e),
+        None => Want::Err(ErrKind::Any),
+    };
+    Line { bytes: v, want, cmd: "file", arg: "exact" }
+}
+
 /// Number of cells of the (line kind x class) table.
 pub fn table_cells() -> usize {
     let mut n = FILE_CLASSES.len() + UNKNOWN.len() * UNKNOWN_ARGS.len();
